@@ -8,9 +8,11 @@ ASSUMED_MODELS).  What is verified here, on the real source re-read on every run
                            parse_email_addresses, get_body_content, parse_email_message,
                            read_mbox_format_mail
   eml_email_extractor.py   _read_eml_format, read_eml_format_mail
-  msg_email_extractor.py   _parse_single_recipient, read_msg_format_mail (field mapping)
+  msg_email_extractor.py   _parse_single_recipient, _parse_multi_recipients (str form), _looks_like_html (round 7),
+                           read_msg_format_mail (field mapping)
   data_types.py            EmailContent.iterate_supported_attachments
-  (+ ground obligations on MBOX_FROM_PATTERN and on the frame of populate_from_path)
+  mime_types.py            is_supported_mime_type (round 7: verified here too, same contract as the C07 pack)
+  (+ ground obligations on MBOX_FROM_PATTERN, on _HTML_HINT_RE (round 7) and on the frame of populate_from_path)
 
 Top-level postconditions are written from the property statement; see contracts/c16_exec.py for
 the spec functions (piece, CNT_SP, dhv_term, FIRST_P/FIRST_H, ...).
@@ -1198,9 +1200,88 @@ RCPT_SEP = "[;,]"
 
 
 def pmr_contract():
-    """(round 7) _parse_multi_recipients on a STRING (the list form -- one recursive call per item, concatenated -- is outside this
-    contract's precondition): the pieces of re.split("[;,]", raw), each parsed by _parse_single_recipient (verified contract),
-    those that give a name or an address, in order.  Loop invariant with the counting function CNT_PSR (ground instances)."""
+    """(round 7) _parse_multi_recipients, both forms of its argument (the parameter is created as a case split str | list[str]).
+    STRING: the pieces of re.split("[;,]", raw), each parsed by _parse_single_recipient (verified contract), those that give a name
+    or an address, in order -- loop invariant with the counting function CNT_PSR (ground instances).
+    LIST: the concatenation, in item order, of the specified results PMR(item) of the items (the recursive calls go through THIS
+    contract's call-site view: an abstract list (PMR_N, PMR_AT) constrained by the string clauses) -- loop invariant with the prefix
+    sums OFF of the result lengths: n == OFF(i), every earlier item's block lies below OFF(i), block k holds PMR(item_k) in order."""
+    LI_AT = z3.Function("pmr_arg.item", I, S)          # the items of a list argument
+    LI_N = z3.Int("pmr_arg.len")
+    OFF = z3.Function("pmr_arg.offset", I, I)           # OFF(j): number of recipients the first j items give (prefix sums of PMR_N)
+
+    def off_def(j):
+        return OFF(j) == z3.If(j <= 0, 0, OFF(j - 1) + M.PMR_N(LI_AT(j - 1)))
+
+    def mk_raw(ex, st, name):
+        return [(None, VStr(z3.String(name))),
+                (LI_N >= 0, VSeq(LI_N, lambda k: VStr(LI_AT(k)), "str"))]
+
+    def is_list(v):
+        return isinstance(v, VSeq) or (isinstance(v, VRef) and not isinstance(v, VStr))
+
+    def pair_body(st, el, k, j):
+        nm, ad = addr_fields(st, el(OFF(k) + j))
+        want = M.PMR_AT(LI_AT(k), j)
+        return z3.And(nm == fld("EmailAddress", "name", S)(want), ad == fld("EmailAddress", "address", S)(want))
+
+    def forall2(n, body, tag):
+        k, j = z3.Int("k!" + tag), z3.Int("j!" + tag)
+        return z3.ForAll([k, j], z3.Implies(z3.And(k >= 0, k < n, j >= 0, j < M.PMR_N(LI_AT(k))), body(k, j)))
+
+    def list_only(fn):
+        def g(c):
+            if not is_list(c.args["raw"]):
+                return z3.BoolVal(True)
+            return fn(c)
+        return g
+
+    def str_only(fn):
+        def g(c):
+            if is_list(c.args["raw"]):
+                return z3.BoolVal(True)
+            return fn(c)
+        return g
+
+    def e_list_count(c):
+        n, _el = view(c)
+        return n == OFF(LI_N)
+
+    def e_list_items(c):
+        _n, el = view(c)
+        return forall2(LI_N, lambda k, j: pair_body(c.st, el, k, j), "rl")
+
+    def extended_list(lc):
+        nodes = getattr(lc.ex, "_loop_nodes", [])
+        names = []
+        for sub in ast.walk(nodes[-1]) if nodes else []:
+            if isinstance(sub, ast.Call) and isinstance(sub.func, ast.Attribute) and sub.func.attr == "extend" and isinstance(sub.func.value, ast.Name) \
+                    and sub.func.value.id not in names:
+                names.append(sub.func.value.id)
+        if len(names) != 1:
+            raise M.ShapeUnknown(f"the loop over a list argument extends {names}: expected exactly one list")
+        r = seq_of(lc.st, lc.st.lookup(names[0]), ("obj", "EmailAddress"))
+        if r is None:
+            raise M.ShapeUnknown("extended list is not a list")
+        return r
+
+    def inv_list(lc):
+        n, el = extended_list(lc)
+        i = lc.i
+        k = z3.Int("k!rlo")
+        return M.ConjA([
+            ("count", n == OFF(i)),
+            ("order", z3.ForAll([k], z3.Implies(z3.And(k >= 0, k < i), z3.And(OFF(k) >= 0, OFF(k) + M.PMR_N(LI_AT(k)) <= OFF(i))))),
+            ("items", forall2(i, lambda k_, j_: pair_body(lc.st, el, k_, j_), "rli")),
+        ], defs=[off_def(i), off_def(i + 1), OFF(i) >= 0] if False else [off_def(i), off_def(i + 1)])
+
+    def result_maker(ex, st, ctx):
+        a = ctx.args["raw"]
+        if not isinstance(a, VStr):
+            raise M.ShapeUnknown("_parse_multi_recipients applied to something that is not a str")
+        st.assume(M.PMR_N(a.t) >= 0)
+        return VSeq(M.PMR_N(a.t), lambda k, t=a.t: VExt("EmailAddress", M.PMR_AT(t, k)), ("obj", "EmailAddress"))
+
     def split_of(st):
         g = st.ghost.get("re_split_arg")
         if g is None:
@@ -1256,6 +1337,8 @@ def pmr_contract():
         return z3.Implies(z3.Length(raw) > 0, forall(M.RSPL_N(P, s), items_body(c.st, el, P, s), "k!ri"))
 
     def inv(lc):
+        if is_list(lc.entry.lookup("raw")):
+            return inv_list(lc)
         P, s = split_of(lc.st)
         n, el = built_list(lc, None, ("obj", "EmailAddress"))
         i = lc.i
@@ -1267,20 +1350,26 @@ def pmr_contract():
         ], defs=[M.cnt_psr_def(P, s, i), M.cnt_psr_def(P, s, i + 1)])
 
     def hyp(c):
+        if is_list(c.args["raw"]):
+            return off_def(z3.IntVal(0))
         raw = raw_of(c)
         return M.cnt_psr_def(z3.StringVal(RCPT_SEP), raw, z3.IntVal(0))
 
     c = FnContract(
         target=f"{MSG}::_parse_multi_recipients",
-        params=[("raw", p_str())],
+        params=[("raw", Maker(mk_raw, desc="str | list[str]"))],
         hyps=hyp,
-        ensures=[("no-recipients-for-an-empty-string", e_empty), ("the-string-itself-is-split-at-semicolons-and-commas", e_split),
-                 ("one-entry-per-piece-that-parses-to-a-name-or-an-address", e_count),
-                 ("entries-are-the-parsed-pieces-in-order", e_items)],
+        ensures=[("no-recipients-for-an-empty-string", str_only(e_empty)), ("the-string-itself-is-split-at-semicolons-and-commas", str_only(e_split)),
+                 ("one-entry-per-piece-that-parses-to-a-name-or-an-address", str_only(e_count)),
+                 ("entries-are-the-parsed-pieces-in-order", str_only(e_items)),
+                 ("list:-as-many-entries-as-the-items-give-together", list_only(e_list_count)),
+                 ("list:-the-recipients-of-each-item-in-order,-items-in-order", list_only(e_list_items))],
         raises=[],
+        result_maker=result_maker,
         loops={"*": LoopSpec(inv=inv, label="recipients")},
-        note="[r for r in map(_parse_single_recipient, re.split('[;,]', raw)) if r and (r.name or r.address)] for a str; the list form "
-             "(MsOxMessage properties may be lists) is NOT covered: call sites in read_msg_format_mail keep the summarised view",
+        note="str: [r for r in map(_parse_single_recipient, re.split('[;,]', raw)) if r and (r.name or r.address)]; list[str]: the "
+             "concatenation of the results of the items, in order.  Call sites in read_msg_format_mail keep the summarised view "
+             "(a deterministic function of the message property, whose form -- str or list -- is not known there)",
     )
     c.summary_at_call_sites = True
     return c
@@ -1692,8 +1781,8 @@ TRUSTED = [
     "msg_parser.MsOxMessage properties are functions of the file bytes",
     "re: finditer yields ordered, non-overlapping, non-empty matches inside the data (the pattern itself is checked by ground "
     "obligations on the compiled literal)",
-    "router.get_extractor / mime_types.is_supported_mime_type: verified by the C07 pack (used through the shape of its contract; "
-    "table content enters through the lemmas mime-fallback-routes.*)",
+    "router.get_extractor: verified by the C07 pack (used through the shape of its contract; table content enters through the lemmas "
+    "mime-fallback-routes.*); mime_types.is_supported_mime_type is verified by this pack as well since round 7",
 ]
 ASSUMED_MODELS = [
     "email.message_from_bytes (total)", "email.message.Message.get (str | None, case-insensitive)", "Message.walk() (finite, depth-first order)",
@@ -1702,11 +1791,17 @@ ASSUMED_MODELS = [
     "email.utils.getaddresses / parseaddr (total)", "email.utils.parsedate_to_datetime (ValueError/TypeError when not a date)",
     "datetime.isoformat", "bytes.decode(cs, errors='replace') raises only LookupError, for an unknown codec; 'utf-8' is known",
     "str.encode('utf-8', errors='ignore') total", "bytes.rstrip(b'\\r\\n')", "base64.b64decode (may raise)",
-    "re.Pattern.finditer / Match.start / Match.end; re.search (total)", "io.BytesIO(data) / seek / read / getvalue (content and position)",
+    "re.Pattern.finditer / Match.start / Match.end; re.search / Pattern.search (total)",
+    "re.split / Pattern.split on a constant pattern (total, at least one piece; pieces uninterpreted)",
+    "re.compile(p, re.IGNORECASE) == re.compile('(?i)' + p)", "str.lower / str.lstrip (total, uninterpreted functions of the string)",
+    "io.BytesIO(data) / seek / read / getvalue (content and position)",
     "mailparser.parse_from_bytes and the attribute shapes listed in TRUSTED", "msg_parser.MsOxMessage (may raise)",
     "str.strip (uninterpreted; ''.strip() == '')", "str.join over a symbolic sequence: depends only on separator, length and the elements below the length",
-    "msg_email_extractor._parse_multi_recipients, _extract_msg_attachments, _looks_like_html, _html_to_text: NOT verified, used as "
-    "deterministic functions (dataflow of read_msg_format_mail only)",
+    "msg_email_extractor._extract_msg_attachments, _html_to_text: NOT verified, used as deterministic functions (dataflow of "
+    "read_msg_format_mail only)",
+    "msg_email_extractor._parse_multi_recipients at the call sites of read_msg_format_mail: the function is verified for a str and for "
+    "a list[str] argument (round 7), but a MsOxMessage property is an opaque value there (str or list: msg_parser's business), so the "
+    "call sites keep the summarised view -- a deterministic function of the property, which the verified contract implies",
     "FileMetadataInterface.populate_from_path: frame = four file-metadata fields (checked syntactically on the source)",
 ]
 ASSUMPTIONS = [
@@ -1714,8 +1809,10 @@ ASSUMPTIONS = [
     "distinguishes the two except isinstance, which is modelled",
     "PY-RE, PY-STR, PY-EXC / EXC-ANY, PY-GEN, logger calls dropped (PY-LOG)",
     "DT-TYPED: fields of the content dataclasses hold values of their declared types",
-    "CNT_SP / CNT_GA / FIRST_P / FIRST_H are defined by primitive recursion; their definitional equations are supplied as ground "
+    "CNT_SP / CNT_GA / CNT_PSR / FIRST_P / FIRST_H are defined by primitive recursion; their definitional equations are supplied as ground "
     "instances where an invariant is assumed (conservative extension)",
+    "PSR_NONE / PSR_NAME / PSR_ADDR name the result of the verified, deterministic _parse_single_recipient at its call sites (conservative "
+    "extension; constrained only by that contract's ensures clauses)",
     "Message.get returns str for every header (compat32 policy returns email.header.Header for raw 8-bit header bytes: not modelled)",
     "a generator's consumer may stop after any prefix",
 ]
@@ -1723,7 +1820,8 @@ NOT_CLAIMED = [
     "correct decoding of RFC 2047 words, charsets, base64/quoted-printable, header folding, MIME nesting: stdlib email / mailparser "
     "(exercised natively by replay/C16.py against the stdlib generator's ground truth, not proved)",
     "msg: totality (a .msg without Subject / sent date fails as a whole: msg.subject None -> AttributeError in __post_init__, "
-    "parsedate_to_datetime(None) -> TypeError); _parse_multi_recipients, _extract_msg_attachments; reply_to is stored unparsed",
+    "parsedate_to_datetime(None) -> TypeError); _extract_msg_attachments (OLE storages: "
+    "filtered comprehension + filter-map loop over olefile, outside the engine's reach), _html_to_text (C17); reply_to is stored unparsed",
     "mboxrd un-escaping: a body line '>From ' stays quoted in body_plain (mailbox.mbox does the same); boundaries are unaffected",
     "several inline text/plain parts: .mbox keeps the first, .eml (mailparser) joins all with a newline -- the two extractors disagree "
     "(natively: 'first part' vs 'first part\\nsecond part'); single-part non-text message: .mbox decodes it as body_plain, .eml gives ''",
